@@ -58,6 +58,15 @@ func genInput(dt *drv.T) []byte {
 
 func (c13) Gen(dt *drv.T, c *Ctx) any {
 	cs := &C13Case{Steps: pick(dt, "steps", 1, 3, 10, 30)}
+	if chance(dt, "huge", 1) && chance(dt, "huge2", 12) {
+		// an input of well over half a megabyte that the property consumes to the end: the recording of a run that drew
+		// a slice of 35,000-45,000 64-bit integers
+		n := 35000 + 1000*drv.IntRange(0, 10).Draw(dt, "hugen")
+		cs.Prog = &Prog{Body: []*Stmt{{Op: "draw", Label: "big", Gen: &GenSpec{K: "slice", Min: n, Max: n, Sub: []*GenSpec{{K: "int", IK: "Uint64"}}}}, {Op: "draw", Label: "last", Gen: &GenSpec{K: "bool"}}}}
+		cs.Seed = drv.Uint64Range(1, 1<<62).Draw(dt, "seed")
+		cs.Extra = []byte{1, 2, 3}
+		return cs
+	}
 	if chance(dt, "anchor", 10) {
 		cs.NBools = drv.IntRange(1, 40).Draw(dt, "nbools")
 	} else {
@@ -161,6 +170,9 @@ func (c13) Run(c *Ctx, csAny any) Outcome {
 			input = input[:len(input)-8+cs.TailLen]
 		}
 		out.Classes = append(out.Classes, "derived-input")
+		if len(input) > 1<<19 {
+			out.Classes = append(out.Classes, "input>512KiB")
+		}
 	}
 
 	a := fuzzOnce(cfg, prog, input)
